@@ -1,10 +1,13 @@
 package props
 
 import (
+	"context"
 	"fmt"
 	"strings"
+	"time"
 
 	"github.com/paulmach/osm"
+	"github.com/paulmach/osm/annotate"
 
 	"verif/internal/eq"
 	"verif/internal/fw"
@@ -71,14 +74,15 @@ type c12Input struct {
 }
 
 type c12Obs struct {
-	run      *hist.Run
-	dump     string   // canonical dump taken the moment the call returned
-	order    []string // order finding per parent version, taken the moment the call returned
-	nUpd     []int
-	fresh    bool // the input was rebuilt from the model (otherwise an eq.Clone of the first build)
-	children bool // the datasource was used in its AsChildren configuration
-	seqNo    int  // position of the call in the session
-	listTx   []string
+	run       *hist.Run
+	dump      string   // canonical dump taken the moment the call returned
+	order     []string // order finding per parent version, taken the moment the call returned
+	nUpd      []int
+	fresh     bool // the input was rebuilt from the model (otherwise an eq.Clone of the first build)
+	children  bool // the datasource was used in its AsChildren configuration
+	sharedOpt bool // the ChildFilter option value of the session was reused
+	seqNo     int  // position of the call in the session
+	listTx    []string
 }
 
 // c12Session annotates every input K = 12 times in one process: round k visits the inputs in
@@ -102,6 +106,7 @@ func c12SessionK(res *fw.Result, ins []c12Input, r *gen.R, K int) {
 	}
 	obs := make([][]*c12Obs, n)
 	seq := 0
+	shared := hist.NewSharedFilter()
 	for k := 0; k < K; k++ {
 		order := make([]int, n)
 		for i := range order {
@@ -122,6 +127,11 @@ func c12SessionK(res *fw.Result, ins []c12Input, r *gen.R, K int) {
 				o.run = h.ExecuteChildren()
 			case o.fresh:
 				o.run = h.Execute()
+			case h.Filter != nil && k%3 == 1:
+				// the ChildFilter option VALUE built once for the whole session and reused; the other
+				// rounds build their options afresh. Same input, same verdicts => same result.
+				o.run = h.ExecuteOnOpts(eq.Clone(ways0[i]), eq.Clone(rels0[i]), asChildren, shared)
+				o.sharedOpt = true
 			default:
 				o.run = h.ExecuteOnWith(eq.Clone(ways0[i]), eq.Clone(rels0[i]), asChildren)
 			}
@@ -261,6 +271,9 @@ func c12Judge(res *fw.Result, in c12Input, obs []*c12Obs) {
 				if obs[k].children {
 					how += ", AsChildren datasource"
 				}
+				if obs[k].sharedOpt {
+					how += ", ChildFilter option value reused from earlier calls of the session"
+				}
 				res.Violate("C12/nondeterministic/"+shapeOf(i, us),
 					fmt.Sprintf("run %d (%s, call %d of the session) differs from run 0 (call %d) on equal input in %s (map orders %q vs %q): %s",
 						k, how, obs[k].seqNo, obs[0].seqNo, what, runs[0].Order, runs[k].Order, eq.Diff(obs[0].dump, obs[k].dump)),
@@ -382,6 +395,129 @@ func c12HasUnresolvedWayMember(h *hist.H, run *hist.Run) bool {
 	return false
 }
 
+// pipeDS serves annotated ways (the same objects every time) as member history.
+type pipeDS struct {
+	ways map[osm.WayID]osm.Ways
+}
+
+func (d *pipeDS) NodeHistory(context.Context, osm.NodeID) (osm.Nodes, error) {
+	return nil, hist.ErrNotFound
+}
+func (d *pipeDS) WayHistory(_ context.Context, id osm.WayID) (osm.Ways, error) {
+	if ws, ok := d.ways[id]; ok {
+		return ws, nil
+	}
+	return nil, hist.ErrNotFound
+}
+func (d *pipeDS) RelationHistory(context.Context, osm.RelationID) (osm.Relations, error) {
+	return nil, hist.ErrNotFound
+}
+func (d *pipeDS) NotFound(err error) bool { return err == hist.ErrNotFound }
+
+func c12Pipeline(res *fw.Result, r *gen.R, id string) {
+	reg := hist.Commit
+	if r.Chance(0.4) {
+		reg = hist.Stamp
+	}
+	nWays := r.Range(2, 5)
+	ds := &pipeDS{ways: map[osm.WayID]osm.Ways{}}
+	var latest time.Time
+	var hs []*hist.H
+	for w := 0; w < nWays; w++ {
+		h := hist.Generate(r, hist.Params{Way: true, Regime: reg, Eps: 30, Mode: "clean", MaxParents: 3, MaxChildren: 6, MaxVers: 6})
+		h.Stale = 0
+		run := h.Execute()
+		if run.Err != nil || run.Panic != "" {
+			continue
+		}
+		wid := osm.WayID(800 + w)
+		for _, wy := range run.Ways {
+			wy.ID = wid
+			if t := wy.CommittedAt(); t.After(latest) {
+				latest = t
+			}
+			for _, u := range wy.Updates {
+				if u.Timestamp.After(latest) && r.Chance(0.5) {
+					latest = u.Timestamp
+				}
+			}
+		}
+		ds.ways[wid] = run.Ways
+		hs = append(hs, h)
+	}
+	if len(ds.ways) == 0 {
+		res.Eval("")
+		return
+	}
+	dumpAll := func() (string, string) {
+		var sb strings.Builder
+		bad := ""
+		for w := 0; w < nWays; w++ {
+			for _, wy := range ds.ways[osm.WayID(800+w)] {
+				sb.WriteString(eq.Dump(wy))
+				sb.WriteByte('\n')
+				if f := hist.OrderFinding(wy.Updates); f != "" && bad == "" {
+					bad = fmt.Sprintf("way %d v%d: %s; list: %s", wy.ID, wy.Version, f, hist.UpdatesText(wy.Updates))
+				}
+			}
+		}
+		return sb.String(), bad
+	}
+	before, badBefore := dumpAll()
+	if badBefore != "" {
+		return // would already be reported by the other classes
+	}
+	// multipolygon relation versions over these ways, after (or amid) the ways' updates
+	var rels osm.Relations
+	nv := r.Range(1, 3)
+	for v := 0; v < nv; v++ {
+		at := latest.Add(time.Duration(v*1000+r.Intn(500)) * time.Second)
+		rel := &osm.Relation{ID: 9100, Version: v + 1, Visible: true, Timestamp: at, ChangesetID: osm.ChangesetID(7000 + v),
+			Tags: osm.Tags{{Key: "type", Value: []string{"multipolygon", "boundary"}[r.Intn(2)]}}}
+		if reg == hist.Commit {
+			c := at
+			rel.Committed = &c
+		}
+		for w := 0; w < nWays; w++ {
+			if _, ok := ds.ways[osm.WayID(800+w)]; ok && r.Chance(0.85) {
+				rel.Members = append(rel.Members, osm.Member{Type: osm.TypeWay, Ref: int64(800 + w), Role: []string{"outer", "inner"}[r.Intn(2)]})
+			}
+		}
+		rels = append(rels, rel)
+	}
+	var perr string
+	err := func() (err error) {
+		defer func() {
+			if x := recover(); x != nil {
+				perr = fmt.Sprint(x)
+			}
+		}()
+		return annotate.Relations(context.Background(), rels, ds, annotate.IgnoreInconsistency(true), annotate.IgnoreMissingChildren(true))
+	}()
+	nUpd := 0
+	for _, ws := range ds.ways {
+		for _, wy := range ws {
+			nUpd += len(wy.Updates)
+		}
+	}
+	res.Event(int64(nUpd + len(rels)))
+	res.Add("pipeline_inputs", 1)
+	res.Add("pipeline_way_updates_watched", int64(nUpd))
+	after, badAfter := dumpAll()
+	detail := map[string]any{"way_histories": hs, "relations": eq.Dump(rels), "input": id}
+	switch {
+	case perr != "":
+		res.Violate("C12/panic/pipeline", "annotate.Relations over annotated member ways panicked: "+perr, detail)
+	case after != before:
+		what := "annotate.Relations changed the member ways it was given as history: " + eq.Diff(before, after)
+		if badAfter != "" {
+			what += "; an update list that annotate.Ways returned ordered is now unordered: " + badAfter
+		}
+		res.Violate("C12/pipeline/member-way-updates-rewritten/"+reg.String(), what, detail)
+	}
+	res.Eval(fmt.Sprintf("pipeline/%s/ways%d/relv%d/err=%v", reg, len(ds.ways), nv, err != nil))
+}
+
 func firstErr(runs []*hist.Run) error {
 	for _, r := range runs {
 		if r.Err != nil {
@@ -495,6 +631,14 @@ func c12Exec(c fw.Case) *fw.Result {
 			}
 		}
 		c12Session(res, ins, gen.New(c.Seed, "c12session"))
+	case "pipeline":
+		// annotate.Ways on member ways, then the very same way objects serve as member history
+		// for annotate.Relations on a multipolygon relation (orientation looks at the ways'
+		// geometry at the relation's time): the ways' finished update lists must not change
+		for k := 0; k < int(c.Int("n")); k++ {
+			r := gen.New(gen.Sub(c.Seed, "c12pipe", k), "c12pipeline")
+			c12Pipeline(res, r, fmt.Sprintf("%x-%d", c.Seed, k))
+		}
 	case "skew":
 		// a later version with an earlier instant (clock skew), 13-200 updates on one index,
 		// the position of the inversion swept
@@ -654,6 +798,13 @@ func c12Cases(tier string, seed uint64) []fw.Case {
 	for i := 0; i < nHo; i++ {
 		cs = append(cs, fw.Case{Kind: "handover", Seed: gen.Sub(seed, "c12handover", i), P: map[string]int64{"n": 9}})
 	}
+	nPipe, perPipe := 6, int64(10)
+	if tier == "thorough" {
+		nPipe, perPipe = 60, 25
+	}
+	for i := 0; i < nPipe; i++ {
+		cs = append(cs, fw.Case{Kind: "pipeline", Seed: gen.Sub(seed, "c12pipeline", i), P: map[string]int64{"n": perPipe}})
+	}
 	// wide parents (seed independent sizes; the random placement part depends on the seed)
 	wide := []int64{4097, 4200, 8193, 16385, 33000, 65537, 65600, 70000}
 	if tier == "thorough" {
@@ -675,6 +826,8 @@ func c12Cases(tier string, seed uint64) []fw.Case {
 			mode = "any"
 		case 7:
 			mode = "mixed"
+		case 4:
+			mode = "filter"
 		}
 		cs = append(cs, fw.Case{Kind: "random", Seed: gen.Sub(seed, "c12", i), P: map[string]int64{"n": per}, S: map[string]string{"mode": mode}})
 	}
